@@ -21,12 +21,21 @@ def values(cls, seed, tier):
     return sorted(vals)
 
 
+# tolerance ladder: values spaced around the usual "approximately equal" thresholds
+# (1e-8 absolute near 1, 1e-5 relative near 1e5) - approximate comparisons are not transitive
+LADDER = [1.0, 1.0 + 4e-9, 1.0 + 8e-9, 1.0 + 1.2e-8, 1e5, 1e5 + 0.7, 1e5 + 1.4]
+
+
 def vectors(cls, seed, tier, dmax=None):
     """All vectors of length 1..dmax over the class's value grid; class S (and
     S0 = with zeros) are the compositions c/m with sum 1."""
     if dmax is None:
         dmax = 3
     out = {}
+    if cls == "T":
+        for d in range(1, (2 if tier == "quick" else 3) + 1):
+            out[d] = list(itertools.product(LADDER if d < 3 else LADDER[:4] + LADDER[5:6], repeat=d))
+        return out
     if cls in ("S", "S0"):
         m = 6 if tier == "quick" else 8
         if seed:
